@@ -516,3 +516,38 @@ static inline int post_verif_eye(sv_t shape, sv_t idx, int k, opt_sv_t ret)
 static inline int pre_verif_tri(sv_t shape, sv_t idx, int k) { return c04_tri_pre(shape, idx, k, 0); }
 static inline int post_verif_tri(sv_t shape, sv_t idx, int k, opt_sv_t ret)
 { return (OPT_HAS(ret) == 0) == (c04_tri_diff(idx) <= (long)k) && IMPLIES(OPT_HAS(ret), c04_tri_src_ok(shape, idx, ret)); }
+
+/* =============================================================== roll with several axes: shape (axis list validity)
+ * np.roll(a, shifts, axes): shape unchanged, every axis must satisfy -ndim <= axis < ndim. */
+GHOST_ARR(unsigned long, RAV, 10)    /* RAV[j] = 1 iff j >= len(axis) or axis[j] is valid for ndim */
+static inline int c04_axes_valid(iv_t axis, unsigned long nd)
+{
+  int ok = 1;
+  for (unsigned long j = 0; j < CAP; j++)
+    if (j < SV_LEN(axis)) ok = ok && C04_AXIS_OK(SV_AT(axis, j), nd);
+  return ok;
+}
+static inline int pre_verif_shape_roll_axes(sv_t shape, iv_t shift, iv_t axis)
+{
+  int ok = SV_LEN(shape) <= CAP && SV_LEN(axis) <= CAP && SV_LEN(shift) <= CAP;
+  for (unsigned long j = 0; j < CAP; j++)
+    if (ok) ok = ok && GHOST_DEF(RAV[j], (unsigned long)(j >= SV_LEN(axis) || C04_AXIS_OK(SV_AT(axis, j), SV_LEN(shape))));
+  return ok;
+}
+static inline int post_verif_shape_roll_axes(sv_t shape, iv_t shift, iv_t axis, opt_sv_t ret)
+{
+  unsigned long nd = SV_LEN(shape);
+  return (OPT_HAS(ret) != 0) == (c04_axes_valid(axis, nd) != 0)
+      && IMPLIES(OPT_HAS(ret), SV_LEN(OPT_VAL(ret)) == nd && IMPLIES(g < nd, SV_AT(OPT_VAL(ret), g) == SV_AT(shape, g)));
+}
+/* =============================================================== helpers of the stack family
+ * np.hstack joins along axis 1, except for 1-d operands (axis 0); np.vstack first promotes 1-d operands (N) to (1,N). */
+static inline int pre_verif_hstack_axis(sv_t lhs, sv_t rhs) { return SV_LEN(lhs) <= CAP && SV_LEN(rhs) <= CAP; }
+static inline int post_verif_hstack_axis(sv_t lhs, sv_t rhs, unsigned long ret) { return ret == (SV_LEN(lhs) == 1UL ? 0UL : 1UL); }
+static inline int pre_verif_shape_vstack(sv_t shape) { return SV_LEN(shape) >= 1UL && SV_LEN(shape) <= CAP; }
+static inline int post_verif_shape_vstack(sv_t shape, sv_t ret)
+{
+  unsigned long d = SV_LEN(shape);
+  if (d == 1UL) return SV_LEN(ret) == 2UL && SV_AT(ret, 0) == 1UL && SV_AT(ret, 1) == SV_AT(shape, 0);
+  return SV_LEN(ret) == d && IMPLIES(g < d, SV_AT(ret, g) == SV_AT(shape, g));
+}
